@@ -20,6 +20,7 @@ import (
 	casketerrors "github.com/tmpim/casket/caskethttp/errors"
 	"github.com/tmpim/casket/caskethttp/httpserver"
 	casketlog "github.com/tmpim/casket/caskethttp/log"
+	_ "github.com/tmpim/casket/caskethttp/rewrite"
 	"github.com/tmpim/casket/casketfile"
 
 	"verifharness/hx"
@@ -35,8 +36,11 @@ import (
 //                   h<code> WriteHeader   w<n> Write of n bytes   f Flush
 //                   c<n> io.Copy from a plain reader (neither WriterTo nor anything else)
 //                   n<n> io.CopyN          s<n> http.ServeContent of an n-byte file
+//                   p<hex path> r.URL.Path = path (in place, as rewrite/ext/internal do)
+//                   u<hex path> r.URL = &url.URL{Path: path} (a new URL object)
 //   3 errlens     <status>=<len of default error body>,...
-//   4 wrap        - | errors      (the real errors directive between log and the handler)
+//   4 wrap        - | errors | rewrite   (the real errors / rewrite directive between log and the handler;
+//                   rewrite: ^/b$ -> /a/b, ^/a/b$ -> /b, ^/c$ -> /zzz, ^/a/$ -> /c)
 //   5 writer      what is under the log recorder:
 //                   plain  httptest.ResponseRecorder (no io.ReaderFrom — like HTTP/2 or another wrapper)
 //                   rf     the same with an io.ReaderFrom
@@ -71,6 +75,12 @@ func (p c20Probe) ServeHTTP(w http.ResponseWriter, r *http.Request) (int, error)
 	for _, op := range s.ops {
 		n, _ := strconv.Atoi(op[1:])
 		switch op[0] {
+		case 'p':
+			r.URL.Path = hx.UnHS(op[1:])
+		case 'u':
+			u := *r.URL
+			u.Path = hx.UnHS(op[1:])
+			r.URL = &u
 		case 'h':
 			w.WriteHeader(n)
 		case 'w':
@@ -202,7 +212,7 @@ func c20LogEval(f []string) (string, []string) {
 		for j, op := range s.ops {
 			if op[0] == 'h' {
 				nh++
-				if j > 0 {
+				if j > 0 && s.ops[j-1][0] != 'p' && s.ops[j-1][0] != 'u' {
 					anyOut = true
 				}
 			}
@@ -240,6 +250,17 @@ func c20LogEval(f []string) (string, []string) {
 			return "setup-error:" + err.Error(), nil
 		}
 		defer eh.Log.Close()
+	}
+	if f[4] == "rewrite" {
+		ctrl.Dispenser = casketfile.NewDispenser("Testfile", strings.NewReader(
+			"rewrite ^/b$ /a/b\nrewrite ^/a/b$ /b\nrewrite ^/c$ /zzz\nrewrite ^/a/$ /c\n"))
+		setup, err := casket.DirectiveAction("http", "rewrite")
+		if err != nil {
+			return "setup-error:" + err.Error(), nil
+		}
+		if err := setup(ctrl); err != nil {
+			return "setup-error:" + err.Error(), nil
+		}
 	}
 	cfg.AddMiddleware(func(next httpserver.Handler) httpserver.Handler { return probe })
 	srv, err := httpserver.NewServer("127.0.0.1:0", []*httpserver.SiteConfig{cfg})
@@ -350,6 +371,9 @@ func c20LogEval(f []string) (string, []string) {
 	if f[4] == "errors" {
 		tags = append(tags, "errors-directive-inside")
 	}
+	if f[4] == "rewrite" {
+		tags = append(tags, "rewrite-directive-inside")
+	}
 	tags = append(tags, "writer="+f[5])
 	for _, sc := range probe.scripts {
 		for _, op := range sc.ops {
@@ -358,6 +382,10 @@ func c20LogEval(f []string) (string, []string) {
 				tags = append(tags, "body-sent-by-io.Copy:"+f[5])
 			case 'f':
 				tags = append(tags, "flush")
+			case 'p':
+				tags = append(tags, "handler-rewrites-path-in-place")
+			case 'u':
+				tags = append(tags, "handler-replaces-url")
 			}
 		}
 	}
@@ -384,6 +412,17 @@ var c20Outcomes = []string{
 	"s0:0:0", "c0:0:0", "c0.h302:404:0", "n0.h404.w3:0:0", "w0.h404:0:0", "c5:500:0", "c5::1x", "w2.f.c40000:0:0",
 	// Flush sends the header
 	"f.w3:0:0", "f:0:0", "f.h404.w2:0:0", "h201.f.n6:0:0", "f:404:0",
+}
+
+// c20PathOutcomes: handlers that change the request path before answering; targets on both sides
+// of the except lists and scopes the generator uses.
+func c20PathOutcomes() []string {
+	var out []string
+	for _, t := range []string{"/a/b", "/a", "/c", "/zzz", "/b", "/"} {
+		h := hx.HS(t)
+		out = append(out, "p"+h+".w3:0:0", "u"+h+".w3:0:0", "p"+h+":404:0", "u"+h+":500:0", "p"+h+".h404.w2:0:0", "w1.p"+h+":0:0", "p"+h+"::1x")
+	}
+	return out
 }
 
 func c20Outcome(s string) string {
@@ -437,11 +476,19 @@ func c20Dir(scope string, excepts ...string) string {
 }
 
 func c20LogGen(g *hx.Gen) {
+	outcomes := append(append([]string(nil), c20Outcomes...), c20PathOutcomes()...)
+	pathOutcomes := c20PathOutcomes()
+	round := 0
 	allReqs := func() []string {
 		var rs []string
 		for i, p := range c20Paths {
 			rs = append(rs, hx.HS(p)+":"+c20Outcome(c20Outcomes[i%len(c20Outcomes)]))
 		}
+		// and every path once more with a handler that rewrites the path (targets rotate)
+		for i, p := range c20Paths {
+			rs = append(rs, hx.HS(p)+":"+c20Outcome(pathOutcomes[(i*5+round)%len(pathOutcomes)]))
+		}
+		round++
 		return rs
 	}
 	// 1. exhaustive: every single directive (scope x except) and every ordered pair of scopes,
@@ -450,6 +497,7 @@ func c20LogGen(g *hx.Gen) {
 	for _, s := range c20Scopes {
 		for _, e := range excs {
 			c20LogCase(g, []string{c20Dir(s, e...)}, false, allReqs())
+			c20LogCase(g, []string{c20Dir(s, e...)}, false, allReqs(), "rewrite")
 		}
 	}
 	for _, s1 := range c20Scopes {
@@ -464,7 +512,7 @@ func c20LogGen(g *hx.Gen) {
 		}
 	}
 	// 2. every outcome on a fixed two-log block, in and out of scope
-	for _, o := range c20Outcomes {
+	for _, o := range outcomes {
 		for _, p := range []string{"/a/x", "/zzz"} {
 			for _, kind := range []string{"plain", "rf", "h1"} {
 				c20LogCase(g, []string{c20Dir("/a"), c20Dir("/a")}, false, []string{hx.HS(p) + ":" + c20Outcome(o)}, "-", kind)
@@ -490,12 +538,14 @@ func c20LogGen(g *hx.Gen) {
 		}
 		var reqs []string
 		for i, n := 0, 1+g.Rng.Intn(12); i < n; i++ {
-			o := hx.Pick(g.Rng, c20Outcomes)
+			o := hx.Pick(g.Rng, outcomes)
 			if g.Rng.Chance(1, 3) {
 				// random script
 				var ops []string
 				for j, m := 0, g.Rng.Intn(4); j < m; j++ {
-					switch g.Rng.Intn(6) {
+					switch g.Rng.Intn(7) {
+					case 6:
+						ops = append(ops, hx.Pick(g.Rng, []string{"p", "u"})+hx.HS(hx.Pick(g.Rng, c20Paths)))
 					case 0, 1:
 						ops = append(ops, fmt.Sprintf("h%d", hx.Pick(g.Rng, []int{200, 201, 302, 404, 500, 503})))
 					case 2:
@@ -517,7 +567,7 @@ func c20LogGen(g *hx.Gen) {
 			}
 			reqs = append(reqs, hx.HS(hx.Pick(g.Rng, c20Paths))+":"+c20Outcome(o))
 		}
-		c20LogCase(g, dirs, g.Rng.Chance(1, 2), reqs, hx.Pick(g.Rng, []string{"-", "-", "errors"}), hx.Pick(g.Rng, []string{"plain", "plain", "rf", "h1"}))
+		c20LogCase(g, dirs, g.Rng.Chance(1, 2), reqs, hx.Pick(g.Rng, []string{"-", "-", "errors", "rewrite"}), hx.Pick(g.Rng, []string{"plain", "plain", "rf", "h1"}))
 	}
 }
 
